@@ -4,13 +4,15 @@ PROP = dict(
     properties_files=["C04"],
     design_ref="DESIGN.md section 10, C04",
     technique="Coq proofs that the model of checkConditionalMatches/MatchETag is the precondition truth table for all header strings and tags, that conditional PUT/DELETE are carried out iff it allows (else 412/400 and an equal state), and that PUT, GET, HEAD and PROPFIND announce one tag; correspondence check runs every row of the table against the real handler",
-    level_text="Machine-checked theorems C04_truth_table, C04_table_existing / C04_table_absent (the table spelled out), C04_conditional_delete / C04_conditional_put (carried out iff allowed; otherwise 412 or 400 and the state is equal), C04_match_etag_true / _error, C04_one_tag, C04_tag_accepted_back — for all header strings, tags, trees; and from the bytes of the headers, composed with the entity-tag codec proved for C16: C04_if_match_announced / C04_if_none_match_announced (the text the server announces for a tag, sent back, matches iff the tag is the current one, for every byte string as tag), C04_announced_on_absent, C04_undecodable_is_400. Every run executes PUT and DELETE on an absent resource, a file and a collection with If-Match x If-None-Match each in {unset, *, current tag, current tag with trailing blank, current tag unquoted, stale, other, unquoted, weak, list, single-quoted, back-quoted, lone quote, bad escape, inner quote, empty literal, non-ASCII and invalid-UTF-8 literals, the current tag spelled with a hex / octal / unicode escape (decodes to the same tag), weak form of the current tag, lists containing it, doubled, upper-cased}, observing status, tree and the tags announced.",
-    level_note="Trusted as for C01. The decoded tag is an input of serve (computed by the harness with the real ConditionalMatch.ETag); the wire-level theorems assume wire_decoded (that input equals what the Coq model of ETag.UnmarshalText, Quote.v, yields from the header bytes), and the oracle evaluates wire_decoded on every explored request of every file-server stage. The CalDAV/CardDAV pass-through of the two headers is checked by the C13/C10 harnesses, not here.",
+    level_text="Machine-checked theorems C04_truth_table, C04_table_existing / C04_table_absent (the table spelled out), C04_conditional_delete / C04_conditional_put (carried out iff allowed; otherwise 412 or 400 and the state is equal), C04_match_etag_true / _error, C04_one_tag, C04_tag_accepted_back — for all header strings, tags, trees; and from the bytes of the headers, composed with the entity-tag codec proved for C16: C04_if_match_announced / C04_if_none_match_announced (the text the server announces for a tag, sent back, matches iff the tag is the current one, for every byte string as tag), C04_announced_on_absent, C04_undecodable_is_400; C04_announce_meets_spec (the text written in the four places for any backend tag is one text, decodes to the tag and is accepted back). Every run executes PUT and DELETE on an absent resource, a file and a collection with If-Match x If-None-Match each in {unset, *, current tag, current tag with trailing blank, current tag unquoted, stale, other, unquoted, weak, list, single-quoted, back-quoted, lone quote, bad escape, inner quote, empty literal, non-ASCII and invalid-UTF-8 literals, the current tag spelled with a hex / octal / unicode escape (decodes to the same tag), weak form of the current tag, lists containing it, doubled, upper-cased}, observing status, tree and the tags announced.",
+    level_note="Trusted as for C01. The decoded tag is an input of serve (computed by the harness with the real ConditionalMatch.ETag); the wire-level theorems assume wire_decoded (that input equals what the Coq model of ETag.UnmarshalText, Quote.v, yields from the header bytes), and the oracle evaluates wire_decoded on every explored request of every file-server stage. The CalDAV/CardDAV pass-through is the identity in the model (C04_cdav_options_unaltered) and is tied to the code by the cdav stage; the announcement clause for arbitrary backend tags is C04_announce_meets_spec, tied by the tags stage.",
     stages=[
         dict(name="cond", harness="dav", oracle="DAV", args=["-stage", "cond"], oracle_args=["c01"]),
         dict(name="history", harness="dav", oracle="DAV", args=["-stage", "history"], oracle_args=["c01"], thorough_only=True),
+        dict(name="tags", harness="c04x", oracle="DAV", args=["-stage", "tags"], oracle_args=["c01"]),
+        dict(name="cdav", harness="c04x", oracle="DAV", args=["-stage", "cdav"], oracle_args=["c01"]),
     ],
-    rule="3 resource states x {PUT, DELETE} x 17-28 If-Match values x 17-28 If-None-Match values (every pair), the current tag read from the real server before each row; thorough adds the random histories of C01 (which carry If-None-Match: * on some PUTs); non-trivial = at least one conditional header set; distinct = by digest of (tree, request)",
+    rule="3 resource states x {PUT, DELETE} x 17-28 If-Match values x 17-28 If-None-Match values (every pair), the current tag read from the real server before each row; tags stage: webdav.Handler over a FileSystem double reporting 447 (quick) / 6,047 (thorough) entity tags — quotes, backslashes, control bytes, non-ASCII, non-printable and invalid UTF-8, long — observing the ETag header of PUT, GET, HEAD, getetag of PROPFIND and MatchETag of the announced text; cdav stage: PUT through caldav.Handler and carddav.Handler with every pair of ~60 If-Match / If-None-Match values (absent, *, weak, lists, unquoted, blanks, non-ASCII, random) and a recording backend; thorough adds the random histories of C01 (which carry If-None-Match: * on some PUTs); non-trivial = at least one conditional header set; distinct = by digest of (tree, request)",
     exhaustive=True,
     exhaustive_universe="every row of the precondition table over the stated header-value classes",
     trusted_base=DAV_TRUST,
